@@ -6,7 +6,8 @@
    on_dial_failure operations with keys of length L; K is the bucket size (20 in litep2p). *)
 From Coq Require Import List Bool Arith NArith Permutation Sorted.
 From V.gen Require Consts.
-From V.C14 Require Import Model Proofs U256.
+From Coq Require Import ZArith.
+From V.C14 Require Import Model Proofs U256 GhostProofs AddrModel AddrProofs.
 Import ListNotations.
 
 (* Placement: every peer stored in bucket i (everything except the address-less dummy that
@@ -342,6 +343,245 @@ Proof.
 Qed.
 Print Assumptions C14_reply_exactly_k_closest.
 
+(* ---------------------------------------------------------------- ground truth of connectedness
+
+   `ghost local K h` (Model.v) is the set of peers that ARE connected after the history h, judged
+   from the history alone: some operation said so while — or by which — the table held the peer
+   (on_connection_established on a stored peer, add_known_peer(.., Connected) that left it stored,
+   insert(.., Connected) through a Vacant slot) and no disconnect for that peer followed.  What
+   the table's own `connection` flag says plays no role in the definition. *)
+
+(* a connected peer is stored, in the bucket of its distance, and its entry says Connected (so
+   KBucket::entry never offers its slot) — for every history, any keys, any K *)
+Theorem C14_gt_connected_stored :
+  forall local K h k, In k (ghost local K h) ->
+  exists i n, ilog2 (kxor local k) = Some i /\ In n (nth i (reach local K h) []) /\
+              n_key n = k /\ n_conn n = Connected.
+Proof. exact ghost_stored. Qed.
+Print Assumptions C14_gt_connected_stored.
+
+(* C14_connected_kept restated against ground truth: once connected, the peer is connected and
+   stored (same bucket, same key) after every continuation of the history that does not
+   disconnect it — dial failures, re-mentions with any connection type, inserts, lookups and any
+   number of newcomers to its full bucket included *)
+Theorem C14_gt_connected_kept :
+  forall local K h1 h2 k, In k (ghost local K h1) -> ~ In (ODisconnected k) h2 ->
+  In k (ghost local K (h1 ++ h2)) /\
+  exists i n, ilog2 (kxor local k) = Some i /\ In n (nth i (reach local K (h1 ++ h2)) []) /\
+              n_key n = k /\ n_conn n = Connected.
+Proof.
+  intros local K h1 h2 k H1 H2. pose proof (ghost_kept local K h1 h2 k H1 H2) as H.
+  split; [exact H|exact (ghost_stored local K _ k H)].
+Qed.
+Print Assumptions C14_gt_connected_kept.
+
+(* membership is exactly: the last connection-related operation for the peer was a Connected
+   claim that left it stored, with no disconnect after it *)
+Theorem C14_gt_last_claim :
+  forall local K h k,
+  In k (ghost local K h) <->
+  exists h1 o h2, h = h1 ++ o :: h2 /\ op_key o = k /\
+    claims_connected o (last_code local K h1 o) = true /\
+    stored_in local (reach local K (h1 ++ [o])) k = true /\
+    ~ In (ODisconnected k) h2.
+Proof. exact ghost_iff. Qed.
+Print Assumptions C14_gt_last_claim.
+
+Theorem C14_gt_disconnect_revokes :
+  forall local K h k, ~ In k (ghost local K (h ++ [ODisconnected k])).
+Proof. exact ghost_disconnect. Qed.
+Print Assumptions C14_gt_disconnect_revokes.
+
+(* closest(): a connected peer with a known address is returned, unless k stored peers with
+   addresses strictly closer to the target fill the result *)
+Theorem C14_gt_connected_returned :
+  forall local K h tgt kk k,
+  1 <= length local -> wf_ops local h -> length tgt = length local ->
+  outside_class local (reach local K h) tgt ->
+  In k (ghost local K h) ->
+  exists n, In n (concat (reach local K h)) /\ n_key n = k /\ n_conn n = Connected /\
+    (n_addr n = true ->
+     In n (closest local (reach local K h) tgt kk) \/
+     (length (closest local (reach local K h) tgt kk) = kk /\
+      forall a, In a (closest local (reach local K h) tgt kk) -> dlt tgt a n)).
+Proof.
+  intros local K h tgt kk k HL Hw Ht Hc Hk.
+  destruct (ghost_stored local K h k Hk) as [i [n [_ [Hin [E1 E2]]]]].
+  exists n. split; [eapply in_nth_concat; exact Hin|]. split; [exact E1|]. split; [exact E2|].
+  intro Ha. eapply closest_returns; eauto using reach_inv, in_nth_concat.
+Qed.
+Print Assumptions C14_gt_connected_returned.
+
+(* the rule of add_known_peer matters (F-C14c): with the first repair alone (only NotConnected
+   spared a Connected entry) a connected peer that is re-mentioned as CannotConnect lost its
+   place to the next newcomer of its full bucket *)
+Theorem C14_remention_displaces_refuted_before_fix :
+  exists local K h k,
+    wf_ops local h /\ In k (ghost local K h) /\
+    ~ exists i n,
+        In n (nth i (fold_left (fun t o => fst (step_gen add_conn_b local K t o)) h
+                               (empty_table (length local))) []) /\ n_key n = k.
+Proof.
+  exists [false; false], 1,
+         [OAdd [true; false] true NotConnected; OConnected [true; false] false;
+          OAdd [true; false] true CannotConnect; OAdd [true; true] true NotConnected],
+         [true; false].
+  split; [repeat constructor|]. split; [vm_compute; auto|].
+  intros [i [n [Hin Hk]]]. vm_compute in Hin.
+  destruct i as [|[|[|i]]]; simpl in Hin; try (destruct Hin; fail).
+  destruct Hin as [<-|[]]. discriminate.
+Qed.
+Print Assumptions C14_remention_displaces_refuted_before_fix.
+
+(* the same against the Kademlia glue: kghost = ground truth along a glue history (connection
+   established while the peer is stored, or an update while a PeerContext exists, until
+   disconnect_peer) *)
+Theorem C14_kad_gt_connected_stored :
+  forall local K h k, In k (kghost local K h) ->
+  exists i n, ilog2 (kxor local k) = Some i /\ In n (nth i (k_table (kreach local K h)) []) /\
+              n_key n = k /\ n_conn n = Connected.
+Proof. exact kghost_stored. Qed.
+Print Assumptions C14_kad_gt_connected_stored.
+
+Theorem C14_kad_gt_connected_kept :
+  forall local K h1 h2 k, In k (kghost local K h1) -> ~ In (KDisconnect k) h2 ->
+  In k (kghost local K (h1 ++ h2)) /\
+  exists i n, ilog2 (kxor local k) = Some i /\ In n (nth i (k_table (kreach local K (h1 ++ h2))) []) /\
+              n_key n = k /\ n_conn n = Connected.
+Proof.
+  intros local K h1 h2 k H1 H2. pose proof (kghost_kept local K h1 h2 k H1 H2) as H.
+  split; [exact H|exact (kghost_stored local K _ k H)].
+Qed.
+Print Assumptions C14_kad_gt_connected_kept.
+
+Theorem C14_kad_gt_established :
+  forall local K h p d pe,
+  stored_in local (k_table (kreach local K (h ++ [KEstablished p d pe]))) p = true ->
+  In p (kghost local K (h ++ [KEstablished p d pe])).
+Proof. exact kghost_established. Qed.
+Print Assumptions C14_kad_gt_established.
+
+(* the glue history is the table history kflat: everything proved about `reach` holds for the
+   tables of the event loop *)
+Theorem C14_kad_is_table_history :
+  forall local K h,
+  k_table (kreach local K h) = reach local K (kflat local K (kad_empty (length local)) h).
+Proof. intros. unfold kreach, reach. apply krun_flat. Qed.
+Print Assumptions C14_kad_is_table_history.
+
+(* ---------------------------------------------------------------- displaced only to make room
+
+   If a stored peer's key is gone after an operation, then the operation stored a NEW key of the
+   same bucket (insert / add_known_peer), the bucket was full (>= K nodes), the displaced node was
+   replaceable (NotConnected / CannotConnect by its flag — never a ground-truth connected peer, see
+   C14_gt_connected_stored) and it was the first replaceable node of the bucket.  Nothing else ever
+   removes a peer. *)
+Theorem C14_displaced_only_for_room :
+  forall local K t o j n,
+  In n (nth j t []) ->
+  ~ key_in (n_key n) (nth j (fst (step local K t o)) []) ->
+  ilog2 (kxor local (op_key o)) = Some j /\ K <= length (nth j t []) /\ replaceable n = true /\
+  stores_op o = true /\ ~ key_in (op_key o) (nth j t []) /\
+  exists a c, nth j t [] = a ++ n :: c /\ Forall (fun x => replaceable x = false) a.
+Proof. exact step_displaced. Qed.
+Print Assumptions C14_displaced_only_for_room.
+
+(* a full bucket without a replaceable node turns every new key away (NoSlot; an add without
+   addresses is ignored): the table does not change *)
+Theorem C14_full_bucket_rejects :
+  forall local K t o i,
+  ilog2 (kxor local (op_key o)) = Some i -> K <= length (nth i t []) ->
+  Forall (fun x => replaceable x = false) (nth i t []) -> ~ key_in (op_key o) (nth i t []) ->
+  fst (step local K t o) = t /\
+  (snd (snd (step local K t o)) = 3 \/ snd (snd (step local K t o)) = 4).
+Proof. exact step_full_rejects. Qed.
+Print Assumptions C14_full_bucket_rejects.
+
+(* ---------------------------------------------------------------- the address stores of the entries
+
+   AddrModel.v carries one AddressStore per node next to the table of Model.v: rrun = any history
+   of rich operations (with their address lists) from the empty table. *)
+
+(* the table part of the rich run is the run of Model.v on the abstracted operations: every
+   theorem about `reach` applies to it *)
+Theorem C14_addr_refines_table :
+  forall cap local K h,
+  r_table (rrun cap local K (rempty (length local)) h) = reach local K (map abs_op h).
+Proof. intros. unfold reach. apply rrun_table. Qed.
+Print Assumptions C14_addr_refines_table.
+
+(* "has a known address" (the flag of Model.node that closest() filters on) is exactly "the
+   address store is not empty"; a store holds at most `cap` records and no address twice *)
+Theorem C14_addr_flag_is_store :
+  forall cap local K h, 1 <= cap ->
+  Forall2 (Forall2 (fun n st => n_addr n = nonempty st /\ length st <= cap /\ NoDup (map fst st)))
+          (r_table (rrun cap local K (rempty (length local)) h))
+          (r_stores (rrun cap local K (rempty (length local)) h)).
+Proof. intros cap local K h Hc. apply (rrun_ainv cap local K h _ Hc (rempty_ainv cap _)). Qed.
+Print Assumptions C14_addr_flag_is_store.
+
+Theorem C14_addr_constants :
+  S_FAIL = (-100)%Z /\ S_OK = 100%Z /\ S_BONUS = 1%Z /\ CAP = 64 /\ REPORT = 32.
+Proof. exact S_FAIL_val. Qed.
+Print Assumptions C14_addr_constants.
+
+(* AddressStore::insert never empties a store (so a peer never loses "has a known address") *)
+Theorem C14_addr_insert_never_empties :
+  forall cap s a sc v, 1 <= cap -> nonempty (fst (sinsert cap s a sc v)) = true.
+Proof. exact sinsert_nonempty. Qed.
+Print Assumptions C14_addr_insert_never_empties.
+
+(* KademliaPeer::addresses() — what FIND_NODE replies carry: min(32, n) addresses of the store,
+   in non-increasing score order, no address twice, and no address left out scores higher than
+   one that is reported (the store itself keeps up to 64) *)
+Theorem C14_addr_reported :
+  forall s,
+  length (peer_addresses s) = Nat.min 32 (length s) /\
+  StronglySorted (fun x y => (snd y <= snd x)%Z) (peer_addresses s) /\
+  (forall x, In x (peer_addresses s) -> In x s) /\
+  (forall x y, In x (peer_addresses s) -> In y s -> ~ In y (peer_addresses s) -> (snd y <= snd x)%Z) /\
+  (NoDup (map fst s) -> NoDup (map fst (peer_addresses s))).
+Proof. intro s. exact (reported_facts REPORT s). Qed.
+Print Assumptions C14_addr_reported.
+
+(* a dial failure re-scores exactly the failed address (to -100), a re-mention (score 0) does not
+   erase the score of a known address *)
+Theorem C14_addr_dial_failure_marks :
+  forall cap s a z v, sfind a s = Some z ->
+  sinsert cap s a S_FAIL v = (sset a S_FAIL s, IUpdated) /\
+  sfind a (sset a S_FAIL s) = Some S_FAIL /\
+  forall b, b <> a -> sfind b (sset a S_FAIL s) = sfind b s.
+Proof. exact dial_failure_marks. Qed.
+Print Assumptions C14_addr_dial_failure_marks.
+
+Theorem C14_addr_readd_keeps_score :
+  forall cap s a z v, sfind a s = Some z -> sinsert cap s a 0%Z v = (s, IKept).
+Proof. exact readd_keeps_score. Qed.
+Print Assumptions C14_addr_readd_keeps_score.
+
+(* ---------------------------------------------------------------- the extremes of the key space *)
+
+(* the bucket index is undefined exactly for the key itself (distance 0: the local node) *)
+Theorem C14_index_none_iff_same_key :
+  forall a b, length a = length b -> (ilog2 (kxor a b) = None <-> a = b).
+Proof. exact ilog2_none_iff. Qed.
+Print Assumptions C14_index_none_iff_same_key.
+
+(* keys that differ in the most significant bit (distance >= 2^(L-1)) go to the last bucket *)
+Theorem C14_index_top_bit :
+  forall x y a b, length a = length b -> xorb x y = true ->
+  ilog2 (kxor (x :: a) (y :: b)) = Some (length a).
+Proof. exact ilog2_top. Qed.
+Print Assumptions C14_index_top_bit.
+
+(* no ties: two different keys never have the same distance to a target, so the distance order
+   on stored peers is strict and total (`sort_by_key` never sees equal sort keys for different peers) *)
+Theorem C14_no_distance_ties :
+  forall t a b, length t = length a -> length t = length b -> a <> b ->
+  kxor t a <> kxor t b /\ (klt (kxor t a) (kxor t b) = true \/ klt (kxor t b) (kxor t a) = true).
+Proof. exact no_ties. Qed.
+Print Assumptions C14_no_distance_ties.
+
 (* the handler does not remove the requester from the reply: a requester that is stored with an
    address and is among the k closest to the target is sent back to itself *)
 Example C14_reply_may_contain_requester :
@@ -350,6 +590,18 @@ Example C14_reply_may_contain_requester :
   let s := kreach local 20 [KAddKnown requester true; KTouch requester] in
   map n_key (reply local s requester 20) = [requester].
 Proof. vm_compute. reflexivity. Qed.
+
+(* scope of the ground truth (not a theorem about the code's merit): a connection established to
+   a peer the table does not hold leaves no trace, so a peer that connects first and is learned
+   afterwards from a reply (no PeerContext) is stored NotConnected and is not a ghost member *)
+Example C14_connected_before_known_is_not_protected :
+  let local := [false; false; false] in
+  let p := [true; false; true] in
+  let h := [KEstablished p false false; KUpdate [(p, true)]] in
+  map (fun n => (n_key n, n_conn n)) (nth 2 (k_table (kreach local 20 h)) []) =
+    [([], NotConnected); (p, NotConnected)] /\
+  kghost local 20 h = [].
+Proof. vm_compute. split; reflexivity. Qed.
 
 (* non-vacuity: 3-bit keys, K = 2; bucket 2 overflows, a NotConnected peer is replaced, the
    Connected ones stay, and closest returns the addressed peers in distance order *)
